@@ -84,6 +84,13 @@ def build_detector(d, optics=None):
         if d.get("crop"):
             (a, b), (c, e) = d["crop"]
             det = det.isel(x=slice(a, b), y=slice(c, e))
+        if d.get("sel"):      # pixel rows / columns picked by index list: flipped (descending) or unsorted axes
+            det = det.isel(x=list(d["sel"]["x"]), y=list(d["sel"]["y"]))
+        if d.get("zs"):       # several detector planes: a z stack
+            import xarray as xr
+            det = xr.concat([det.assign_coords(z=[float(z)]) for z in d["zs"]], dim="z")
+        if d.get("order"):    # the same grid stored with its axes in another order
+            det = det.transpose(*d["order"])
     elif t == "points":
         det = detector_points(x=np.asarray(d["x"], dtype=float), y=np.asarray(d["y"], dtype=float),
                               z=(np.asarray(d["z"], dtype=float) if isinstance(d.get("z"), list) else d.get("z")), name=d.get("name"))
@@ -110,6 +117,8 @@ def grid_positions(d):
     if d.get("crop"):
         (a, b), (c, e) = d["crop"]
         x, y = x[a:b], y[c:e]
+    if d.get("sel"):
+        x, y = x[list(d["sel"]["x"])], y[list(d["sel"]["y"])]
     return x, y
 
 
